@@ -18,7 +18,7 @@ class LoopCheck(Check):
     stubs = [
         "user log_likelihood / log_prior -> uninterpreted functions L, PI of the coordinates; the likelihood callable also poses the C17 obligations and counts points",
         "prior_flow -> stub: sample_and_log_prob(n) returns fresh symbolic coordinates and Q(x); log_prob(x) = Q(x) (uninterpreted)",
-        "numpy.random.Generator / orng.ArrayRNG -> counter-indexed symbolic stream (choice -> symbolic indices in [0,N)); bit_generator.state is (stream, counter)",
+        "numpy.random.Generator / orng.ArrayRNG -> counter-indexed symbolic stream (choice -> symbolic indices in [0,N)); bit_generator.state is (stream, counter); the k-th generator the library constructs within one run always starts in the same state",
         "minipcn / emcee (absent here) -> fake modules: the kernel calls the target it was given on its start positions, consumes the generator it was given and returns fresh symbolic positions keyed by the generator state",
         "SMCSampler.sample -> logging-stripped copy compiled from the current source; its beta_tolerance default is 1/4 in this harness so that every probe temperature is a dyadic rational",
         "preconditioning: the real IdentityTransform",
@@ -247,6 +247,65 @@ class LoopCheck(Check):
                 res.kernel_offset = len(pickle.loads(last)["history"].mcmc_acceptance)
                 res.run(resume_from=path)
                 loop_checks.compare_runs(ctx, ref, res, "c11/resume_file", detail=d)
+
+    # -- the resume-from-file constructor (C11) ------------------------------------
+    def flow_resume_file(self, ctx, cfg, fns, tmp):
+        """Reference run and interrupted runs through the REAL
+        Aspire.sample_posterior (config, flow and checkpoints written to a real
+        HDF5 file), then Aspire.resume_from_file + sample_posterior."""
+        import aspire.aspire as A
+
+        old_wrapper = A.get_flow_wrapper
+        from harness.stubs import FlowStub
+
+        A.get_flow_wrapper = lambda backend="zuko", flow_matching=False: (FlowStub, sx)
+        try:
+            ref = self._aspire_run(ctx, cfg, fns, os.path.join(tmp, "ref.h5"))
+            if ref.stopped or ref.final is None:
+                raise core.PathCut()
+            total = len(ref.target.ll_calls)
+            points = range(1, total + 1) if cfg.get("all_crash_points") else [total]
+            for c in points:
+                path = os.path.join(tmp, f"crash{c}.h5")
+                w = self._aspire_run(ctx, cfg, fns, path, fail_at=c)
+                if w.exception is None:
+                    continue
+                if w.sampler is None or w.sampler.last_checkpoint_bytes is None:
+                    continue
+                ctx.reach("c11/resume_constructor")
+                res = self._aspire_run(ctx, cfg, fns, path, resume=True)
+                res.kernel_offset = len(pickle.loads(w.sampler.last_checkpoint_bytes)["history"].mcmc_acceptance)
+                loop_checks.compare_runs(ctx, ref, res, "c11/resume_constructor", detail={"crash_at_likelihood_call": c})
+        finally:
+            A.get_flow_wrapper = old_wrapper
+
+    def _aspire_run(self, ctx, cfg, fns, path, fail_at=None, resume=False):
+        from aspire.aspire import Aspire
+
+        env = smc_loop.RunEnv(ctx, cfg, fns, tag="ref", rng=None, props=self.props)
+        env.target.check_c17 = False
+        env.target.fail_at = fail_at
+        env.sampler_name = "MiniPCNSMC"
+        d = env.d
+        params = [f"p{k}" for k in range(d)]
+        smc_loop.LOOP.current = env
+        kw = dict(smc_loop.SCHEDULES[cfg["schedule"]])
+        kw["sampler_kwargs"] = {"n_steps": 1}
+        if cfg.get("n_final"):
+            kw["n_final_samples"] = env.N + 1
+        try:
+            if resume:
+                a = Aspire.resume_from_file(path, log_likelihood=env.target.log_likelihood, log_prior=env.target.log_prior)
+                env.final = a.sample_posterior(preconditioning="none", **kw)
+            else:
+                a = Aspire(log_likelihood=env.target.log_likelihood, log_prior=env.target.log_prior, dims=d, parameters=params, flow=env.flow, xp=sx)
+                env.final = a.sample_posterior(n_samples=env.N, sampler="smc", checkpoint_path=path, preconditioning="none", **kw)
+        except smc_loop._Stop:
+            env.stopped = True
+        except smc_loop.InjectedFault as e:
+            env.exception = e
+        env.sampler = a.sampler if "a" in dir() else None
+        return env
 
     # -- cadence (C12) -----------------------------------------------------------
     def flow_cadence(self, ctx, cfg, fns, tmp):
